@@ -111,6 +111,7 @@ static KernelView kernel_view() {
   DIR* d = opendir("/proc/self/fd");
   if (!d) return v;
   std::vector<int> eps;
+  std::set<int> socks;
   while (dirent* e = readdir(d)) {
     if (e->d_name[0] == '.') continue;
     int fd = atoi(e->d_name);
@@ -120,7 +121,7 @@ static KernelView kernel_view() {
     if (n <= 0) continue;
     link[n] = 0;
     v.fds++;
-    if (!strncmp(link, "socket:", 7)) v.sockets++;
+    if (!strncmp(link, "socket:", 7)) { v.sockets++; socks.insert(fd); }
     if (strstr(link, "eventpoll")) eps.push_back(fd);
   }
   closedir(d);
@@ -129,7 +130,8 @@ static KernelView kernel_view() {
     std::ifstream in("/proc/self/fdinfo/" + std::to_string(ep));
     std::string l;
     while (std::getline(in, l))
-      if (!l.compare(0, 4, "tfd:")) { v.epoll_entries++; v.epolled.insert(atoi(l.c_str() + 4)); }
+      // only sockets: other threads register their own wake-up descriptors whenever they like
+      if (!l.compare(0, 4, "tfd:") && socks.count(atoi(l.c_str() + 4))) { v.epoll_entries++; v.epolled.insert(atoi(l.c_str() + 4)); }
   }
   return v;
 }
